@@ -6,6 +6,7 @@ package main
 //   proxy_reset_guarded  : shape of retryState.reset(): bare `...Retries().Decrease()` (false) or
 //                          `if r.<flag> { ...Decrease() ... }` (true) (go/ast)
 //   proxy_direct_clears_again : processError's `if s.directResponse {..}` block assigns receiverFiltersAgainPhase = InitPhase (go/ast)
+//   proxy_retry_checks_direct : doRetry has a top-level `if s.directResponse { return }` (go/ast)
 //   proxy_put_resets_cursor : streamfilter.PutStreamFilterChain (or a chain method it calls) assigns 0 to both cursors (go/ast)
 //   proxy_default_global_ms : types.GlobalTimeout (evaluated)
 //   proxy_reason_code    : types.ConvertReasonToCode evaluated on every reset reason (runs the real function)
@@ -174,6 +175,25 @@ func genProxyTokens(repo string) (string, error) {
 	}
 	fmt.Fprintf(&b, "Definition proxy_put_resets_cursor : bool := %v.\n", putResets)
 
+	// --- does doRetry give up when a local reply became pending during the retry interval?
+	rcd := false
+	if dr := FindFunc(f, "downStream", "doRetry"); dr != nil {
+		for _, st := range dr.Body.List {
+			is, isIf := st.(*ast.IfStmt)
+			if !isIf {
+				continue
+			}
+			if se, isSel := is.Cond.(*ast.SelectorExpr); isSel && se.Sel.Name == "directResponse" && len(is.Body.List) == 1 {
+				if _, isRet := is.Body.List[0].(*ast.ReturnStmt); isRet {
+					rcd = true
+				}
+			}
+		}
+	} else {
+		ok = false
+	}
+	fmt.Fprintf(&b, "Definition proxy_retry_checks_direct : bool := %v.\n", rcd)
+
 	// --- retry budget default and reset() shape
 	_, rf, err := ParseGoFile(repo, "pkg/proxy/retrystate.go")
 	if err != nil {
@@ -244,7 +264,7 @@ func genProxyTokens(repo string) (string, error) {
 		}
 	}
 	fmt.Fprintf(&b, "Definition proxy_default_global_ms : Z := %d.\n", int64(types.GlobalTimeout/time.Millisecond))
-	b.WriteString("Definition proxy_src : srcp :=\n  {| loop_bound := proxy_loop_bound; min_budget := proxy_min_budget; reset_guarded := proxy_reset_guarded;\n     direct_clears_again := proxy_direct_clears_again;\n     direct_cancels_retry := proxy_direct_cancels_retry; put_resets_cursor := proxy_put_resets_cursor;\n     reason_code := proxy_reason_code |}.\n")
+	b.WriteString("Definition proxy_src : srcp :=\n  {| loop_bound := proxy_loop_bound; min_budget := proxy_min_budget; reset_guarded := proxy_reset_guarded;\n     direct_clears_again := proxy_direct_clears_again;\n     direct_cancels_retry := proxy_direct_cancels_retry; put_resets_cursor := proxy_put_resets_cursor;\n     retry_checks_direct := proxy_retry_checks_direct; reason_code := proxy_reason_code |}.\n")
 	fmt.Fprintf(&b, "Definition ProxyTokens_translator_ok := %v.\n", ok)
 	return b.String(), nil
 }
